@@ -26,7 +26,7 @@ class Hist:
         # the project starts without a lock, or with one an older version / another platform / a hand merge left:
         # valid, but longer than what the tool writes today
         self.lock = rng.choice([None, None, scen.lock_variants("valid_doc100"), scen.lock_variants("valid_crlf100"),
-                                scen.lock_variants("valid_tail100")])
+                                scen.lock_variants("valid_tail100"), scen.lock_variants("valid0")])
         self.ghost = {}          # id -> statement name it was first written for
         self.events = []
         for f in ("a.rs", "b.rs"):
